@@ -38,15 +38,32 @@ const MAX_NODE_SIZE: usize = std::mem::size_of::<Node>() + (MAX_HEIGHT - 1) * LI
 /// Alignment of node allocations (see `new_raw_node`).
 const NODE_ALIGNMENT: usize = 8;
 
-/// Upper bound on the arena space one entry can take, whatever tower height
-/// it draws: the arena admits an allocation only if a full tower would still
-/// fit behind it.
-pub(crate) const fn max_entry_arena_size(key_len: usize, value_len: usize) -> usize {
-	MAX_NODE_SIZE + key_len + value_len + NODE_ALIGNMENT - 1
+/// Arena space an entry with a tower of `height` levels takes at most
+/// (node, key, value, alignment padding).
+pub(crate) const fn entry_arena_size(height: u32, key_len: usize, value_len: usize) -> usize {
+	MAX_NODE_SIZE - (MAX_HEIGHT - height as usize) * LINKS_SIZE
+		+ key_len + value_len
+		+ NODE_ALIGNMENT
+		- 1
 }
 
+/// On top of the entries themselves the arena wants room for one full tower
+/// behind every allocation (see `new_raw_node`).
+pub(crate) const TOWER_SLACK: usize = MAX_NODE_SIZE;
+
 /// Arena space taken by an empty skiplist (reserved null offset, head, tail).
-pub(crate) const EMPTY_ARENA_SIZE: usize = 1 + 2 * max_entry_arena_size(0, 0);
+pub(crate) const EMPTY_ARENA_SIZE: usize = 1 + 2 * entry_arena_size(MAX_HEIGHT as u32, 0, 0);
+
+/// Draws a tower height with the skiplist's distribution.
+pub(crate) fn random_height() -> u32 {
+	let rnd: u32 = rand::rng().random();
+	let mut h = 1u32;
+	let probs = probabilities();
+	while h < MAX_HEIGHT as u32 && rnd <= probs[h as usize] {
+		h += 1;
+	}
+	h
+}
 
 /// Precomputed probabilities for random height generation
 fn probabilities() -> &'static [u32; MAX_HEIGHT] {
@@ -324,9 +341,23 @@ impl Skiplist {
 	}
 
 	/// Add a key
+	#[allow(dead_code)]
 	pub fn add(&self, key: &[u8], trailer: u64, timestamp: u64, value: &[u8]) -> Result<(), Error> {
+		self.add_with_height(key, trailer, timestamp, value, random_height())
+	}
+
+	/// Add a key with a tower height chosen by the caller (so that the caller
+	/// can know the space the entry takes before inserting it).
+	pub fn add_with_height(
+		&self,
+		key: &[u8],
+		trailer: u64,
+		timestamp: u64,
+		value: &[u8],
+		height: u32,
+	) -> Result<(), Error> {
 		let mut ins = Inserter::new();
-		self.add_internal(key, trailer, timestamp, value, &mut ins)
+		self.add_internal(key, trailer, timestamp, value, height, &mut ins)
 	}
 
 	/// Internal add
@@ -336,6 +367,7 @@ impl Skiplist {
 		trailer: u64,
 		timestamp: u64,
 		value: &[u8],
+		height: u32,
 		ins: &mut Inserter,
 	) -> Result<(), Error> {
 		// Find splice
@@ -344,7 +376,7 @@ impl Skiplist {
 		}
 
 		// Allocate node
-		let (nd, height) = self.new_node(key, trailer, timestamp, value)?;
+		let (nd, height) = self.new_node(key, trailer, timestamp, value, height)?;
 		let nd_offset = self.arena.get_pointer_offset(nd as *const u8);
 
 		// Link at each level
@@ -421,8 +453,8 @@ impl Skiplist {
 		trailer: u64,
 		timestamp: u64,
 		value: &[u8],
+		height: u32,
 	) -> Result<(*mut Node, u32), Error> {
-		let height = self.random_height();
 		let nd = new_node(&self.arena, height, key, trailer, timestamp, value)
 			.ok_or(Error::ArenaFull)?;
 
@@ -441,17 +473,6 @@ impl Skiplist {
 		}
 
 		Ok((nd, height))
-	}
-
-	/// Random height
-	fn random_height(&self) -> u32 {
-		let rnd: u32 = rand::rng().random();
-		let mut h = 1u32;
-		let probs = probabilities();
-		while h < MAX_HEIGHT as u32 && rnd <= probs[h as usize] {
-			h += 1;
-		}
-		h
 	}
 
 	/// Find splice
